@@ -219,10 +219,41 @@ func laneP_C10(t *testing.T, plan *Plan, w *World, sink *Sink) {
 		return
 	}
 	first := runOf(w, "first")
+	fail := func(sig, f string, a ...any) { sink.LaneViolation(plan, sig, fmt.Sprintf(f, a...)) }
+	if first != nil && !first.OK() && first.Panic == "" && len(first.Plan) == 0 && len(first.Writes) == 0 && plan.Meta["refusable"] != "" {
+		// lane S refused the directory while planning: the real command line, whatever it prints and
+		// whatever is answered, has no plan either and must leave the directory as it found it
+		dir, err := scratchDir()
+		if err != nil {
+			w.Harness = err.Error()
+			return
+		}
+		defer os.RemoveAll(dir)
+		if err := materialize(dir, first.Before, w.FS.dirs); err != nil {
+			sink.res.Harness = append(sink.res.Harness, "lane P materialize: "+err.Error())
+			return
+		}
+		before, _ := readDirSnap(dir)
+		ans := Pick(NewRng(Mix(plan.Seed, 4243)), []string{"y\n", "y\n", "n\n", ""})
+		var in *string
+		if ans != "" {
+			in = &ans
+		}
+		res, err := runBinary(dir, Mix(plan.Seed, 79), flagArgs(first.Op.Flags), in, plan.TZ)
+		if err != nil {
+			sink.res.Harness = append(sink.res.Harness, "lane P run: "+err.Error())
+			return
+		}
+		after, _ := readDirSnap(dir)
+		sink.Cell("lane:P:refused-config")
+		if ch := changedPaths(before, after); len(ch) > 0 {
+			fail("laneP:refused-run-changed-files", "flags=%d answer %q: lane S refused the configuration (%s) and planned nothing, the binary (exit %d) changed %v; stdout=%q", first.Op.Flags, ans, first.Err, res.Exit, ch, res.Stdout)
+		}
+		return
+	}
 	if first == nil || !first.OK() || first.Op.Flags&FlagE != 0 {
 		return
 	}
-	fail := func(sig, f string, a ...any) { sink.LaneViolation(plan, sig, fmt.Sprintf(f, a...)) }
 	replace := false
 	for _, c := range first.Plan {
 		if c.Kind == 2 {
